@@ -9,13 +9,50 @@ from harness import funccorr as fc
 ID = 'C12'
 TRANSLATORS = []
 PROPERTY_FILE = 'Properties/C12.v'
-THEOREMS = []
+THEOREMS = ['C12_product_is_canonical_order', 'C12_fixed_sum_iterator', 'C12_fixed_sum_iterator_no_negations',
+            'C12_symmetric_iff_constant_on_weight_classes', 'C12_monotone_is_sorted_row',
+            'C12_evaluate', 'C12_evaluate_at', 'C12_get_truth_table', 'C12_sizes',
+            'C12_is_constant', 'C12_is_constant_at', 'C12_is_monotone', 'C12_is_monotone_at',
+            'C12_is_symmetric', 'C12_is_symmetric_at', 'C12_is_dependent_on_input_at',
+            'C12_is_output_equal_to_input', 'C12_is_output_equal_to_input_negation',
+            'C12_get_significant_inputs_of', 'C12_find_negations_to_make_symmetric',
+            'C12_define_python_model', 'C12_define_truth_table_model',
+            'C12_canonical_index_to_input', 'C12_from_int_unary_func', 'C12_from_int_binary_func',
+            'C12_example_represented']
 PARTIAL = {}
-LEVEL_TEXT = ''
-LEVEL_NOTE = ''
-TECHNIQUE = ''
-TRUSTED = []
-ASSUMPTIONS = []
+LEVEL_TEXT = ('for every Boolean function f with arities n, m >= 1 and every query of the protocol with index arguments '
+              'inside the arities, the modelled code of Circuit, TruthTable and PyFunction (three different algorithms '
+              'where the classes differ) is proved to return the same answer and that answer is proved equivalent to the '
+              'mathematical definition (constant, monotone in the DOCUMENTED sense = truth-table row sorted in canonical '
+              'enumeration order, symmetric = invariant under input permutations, dependence, equal to an input / its '
+              'negation, significant inputs, existence of symmetrising input negations); the fixed-weight iterator '
+              'enumerates exactly the vectors with popcount(x xor negations) = k once each; define of both model '
+              'classes agrees with the model where defined and with the definition elsewhere; integer wrappers honour '
+              'the bit order; all for unbounded n, m. Code tie: exhaustive correspondence of all functions with '
+              'n <= 3 inputs and 1-2 outputs (3x2 sampled in quick) x 3 classes x all queries x all index arguments '
+              'incl. exception kinds')
+LEVEL_NOTE = ('Coq kernel + vm_compute; hand-written model of the code repaired by fixes/D4, D16, D21; correspondence '
+              'harness. Hypotheses of the query theorems: the circuit computes f through Circuit.evaluate/evaluate_at '
+              '(that evaluate is the netlist semantics is C01), the callable computes f, the table is the table of f; '
+              'm >= 1 (a TruthTable with no output cannot be constructed). "monotone" is the protocol\'s documented '
+              'notion (output sequence in enumeration order non-decreasing / non-increasing), NOT lattice monotonicity. '
+              'Exception kinds for out-of-range index arguments, wrong-length input vectors, malformed definitions and '
+              'the constructors are covered by the correspondence only.')
+TECHNIQUE = ('Coq proof: enumeration lemmas (itertools.product order = big-endian index bijection; combinations <-> '
+             'weight classes; zip(*rows) of a rectangular matrix), each Python loop with early exit shown equal to a '
+             'pure fold over a total evaluator, the three monotonicity loops shown to decide StronglySorted of the '
+             'row, symmetric <-> constant on weight classes via Permutation of Boolean lists, define by a cell-wise '
+             'fold invariant, bit order by div/mod arithmetic; tie to /repo by exhaustive vm_compute correspondence '
+             'of the three classes on all small functions + direct oracle (definitions evaluated on the truth table, '
+             'pairwise agreement)')
+TRUSTED = ['the model is of the code with fixes/D4.patch, fixes/D16.patch and fixes/D21.patch applied; on the unrepaired '
+           'tree the correspondence and the oracle report the three defects',
+           'BadBooleanValue (no constructor in the model\'s error type) is reported as BadDefinitionError by the harness',
+           'negative Python indices and non-bool truth values are outside the model (index arguments are naturals)']
+ASSUMPTIONS = ['"monotone" is formalised as the documented notion of the protocol (sortedness of the output sequence in '
+               'canonical enumeration order), which the pinned tests fix; it is not monotonicity in the Boolean lattice',
+               'the Circuit-class theorems assume that Circuit.evaluate / evaluate_at compute f (C01 relates them to '
+               'the netlist semantics)']
 
 
 def _impl(case):
